@@ -135,6 +135,7 @@ structure Stats where
   left : Nat := 0
   reloc : Nat := 0
   relocmv : Nat := 0    -- relocations that moved at least one edge
+  fmis : Nat := 0       -- relocations where the integer growth expression differs from the f64 one
   reuse : Nat := 0      -- inserts that wrote into a slot vacated earlier by a removal or a relocation
   created : Nat := 0    -- nodes created implicitly by insert_edge
   zshare : Nat := 0     -- inserts into a zero-degree node sharing its offset with another node
@@ -218,7 +219,9 @@ def handle (c : Case) : CaseOut := Id.run do
               (List.range gp.numNodes).any fun v => v != s && (gt gp.nodes v).first == (gt gp.nodes s).first
             stt := { stt with right := stt.right + (if b == 0 then 1 else 0), left := stt.left + (if b == 1 then 1 else 0),
                               reloc := stt.reloc + (if b == 2 then 1 else 0),
-                              relocmv := stt.relocmv + (if b == 2 && (gt gp.nodes s).count > 0 then 1 else 0), zshare := stt.zshare + (if zs then 1 else 0) }
+                              relocmv := stt.relocmv + (if b == 2 && (gt gp.nodes s).count > 0 then 1 else 0),
+                              fmis := stt.fmis + (if b == 2 && DG.growLen (gt gp.nodes s).count != DG.growLenFloat (gt gp.nodes s).count then 1 else 0),
+                              zshare := stt.zshare + (if zs then 1 else 0) }
             if b == 2 then
               vac := vac ++ List.range' (gt gp.nodes s).first (gt gp.nodes s).count
           | none => pure ()
@@ -328,7 +331,7 @@ def handle (c : Case) : CaseOut := Id.run do
                      ("init_edges", toString inp.length),
                      ("ins", toString stt.ins), ("rem", toString stt.rem), ("node", toString stt.node),
                      ("setd", toString stt.setd), ("right", toString stt.right), ("left", toString stt.left),
-                     ("reloc", toString stt.reloc), ("relocmv", toString stt.relocmv),
+                     ("reloc", toString stt.reloc), ("relocmv", toString stt.relocmv), ("fmis", toString stt.fmis),
                      ("reuse", toString stt.reuse), ("created", toString stt.created),
                      ("zshare", toString stt.zshare), ("unsorted", bit (isStatic && unsorted)),
                      ("gaps", bit (isStatic && gaps)), ("parallel", bit (isStatic && par)),
